@@ -25,6 +25,18 @@ namespace igris
         typename std::aligned_storage<sizeof(T), alignof(T)>::type _data[N];
         std::size_t m_size = 0;
 
+        // While a constructor of static_vector runs, the destructor would not:
+        // if an element constructor throws, destroy what has been built so far.
+        struct construction_guard
+        {
+            static_vector *self;
+            ~construction_guard()
+            {
+                if (self)
+                    self->clear();
+            }
+        };
+
     public:
         static_vector()
         {
@@ -33,20 +45,24 @@ namespace igris
 
         static_vector(const static_vector &other)
         {
-            m_size = other.m_size;
-            for (std::size_t pos = 0; pos < m_size; ++pos)
+            construction_guard guard{this};
+            while (m_size < other.m_size)
             {
-                new (&_data[pos]) T(other[pos]);
+                new (&_data[m_size]) T(other[m_size]);
+                ++m_size;
             }
+            guard.self = nullptr;
         }
 
         static_vector(static_vector &&other)
         {
-            m_size = other.m_size;
-            for (std::size_t pos = 0; pos < m_size; ++pos)
+            construction_guard guard{this};
+            while (m_size < other.m_size)
             {
-                new (&_data[pos]) T(std::move(other[pos]));
+                new (&_data[m_size]) T(std::move(other[m_size]));
+                ++m_size;
             }
+            guard.self = nullptr;
             other.clear();
         }
 
@@ -81,18 +97,22 @@ namespace igris
 
         template <class It> static_vector(It b, It e)
         {
+            construction_guard guard{this};
             for (; b != e; ++b)
             {
                 push_back(*b);
             }
+            guard.self = nullptr;
         }
 
         static_vector(const std::initializer_list<T> &lst)
         {
+            construction_guard guard{this};
             for (auto &obj : lst)
             {
                 push_back(obj);
             }
+            guard.self = nullptr;
         }
 
         // Create an object in aligned storage
